@@ -46,6 +46,10 @@ def plan(tier, seed):
     for ri in (4, 5, 6, 7):
         for c in (0, 1):
             cfgs.append(dict(root=ri, c=c, order=0, depth=2, maxleaves=3 if quick else 4, foreign=0, dup=1, small=1))
+    # the same event listed twice in ONE operand list, next to another operand: all_of([a, a, b]) waits for b
+    for ri in (8, 9):
+        for c in (0, 1):
+            cfgs.append(dict(root=ri, c=c, order=0, depth=1, maxleaves=3, foreign=0, dup=1, small=1))
     cfgs.append(dict(root=5, c=0, order=0, depth=1, maxleaves=2, foreign=2))
     cfgs.append(dict(root=4, c=0, order=0, depth=1, maxleaves=2, foreign=2))
     cfgs.append(dict(root=4, c=0, order=0, depth=1, maxleaves=2, foreign=1))
